@@ -703,3 +703,120 @@ def integer_game(rng):
     rewards += [0, 0]
     xtl += [[(Fr(1), lose)], [(Fr(1), win)]]
     return finish(rewards, players, xtl, [win], {"family": "integer"})
+
+
+def slow_corridor(n, rng):
+    """deterministic corridor 0 -> 1 -> ... -> n-1 -> win numbered TOWARDS the goal: exactly one more state
+    settles per sweep and every sweep reports the same change (1); n + 1 sweeps"""
+    players, xtl = [], []
+    for i in range(n):
+        k = rng.choice([P1, P2, PR])
+        players.append(k)
+        xtl.append([(Fr(1), i + 1)] if k == PR else [("go", i + 1)])
+    players.append(PR)
+    xtl.append([(Fr(1), n)])
+    return finish([0] * (n + 1), players, xtl, [n], {"family": "slow_corridor", "n": n})
+
+
+def tiny_best_game(rng):
+    """a Player-1 state whose BEST successor has a tiny positive reach probability (2^-21 .. 2^-30, below half
+    the 6-digit rounding unit) next to a dead successor carrying a larger reward: the two are reported as
+    tied for reachability, and conditioning must still remove the dead one.  An unrelated state keeps the
+    first sweep's change large, so the tiny value does propagate to state 0."""
+    q = rng.choice([Fr(1, 2 ** 21), Fr(1, 2 ** 22), Fr(1, 2 ** 26), Fr(1, 2 ** 30)])
+    order = [1, 2]
+    rng.shuffle(order)
+    lose, win = 4, 5
+    dead_kind = rng.choice([P2, P2, PR])     # a dead PLAYER state keeps its transition and hence its reward
+    players = [P1, PR, dead_kind, PR, PR, PR]
+    rows = {1: [(q, win), (1 - q, lose)], 2: [(Fr(1), lose)] if dead_kind == PR else [("x", lose)]}
+    rew = {1: rng.choice([0, 1]), 2: rng.choice([5, 9])}
+    xtl = [[(ACTIONS[j], s) for j, s in enumerate(order)], rows[1], rows[2],
+           [(Fr(1, 2), win), (Fr(1, 2), lose)], [(Fr(1), lose)], [(Fr(1), win)]]
+    return finish([rng.choice([0, 1]), rew[1], rew[2], 0, 0, 0], players, xtl, [win], {"family": "tiny_best", "q": str(q)})
+
+
+def big_slow_reward_game(rng):
+    """Player 1 (or 2) chooses between a slowly mixing rewarded loop worth about 10^9 and a direct branch
+    worth 100 less (or more): the values differ by far more than the tolerance but only in the 8th digit"""
+    kind = rng.choice([P1, P2])
+    gam = rng.choice([Fr(999, 1000), Fr(99, 100)])
+    per_step = rng.choice([10 ** 6, 3 * 10 ** 5]) if gam == Fr(999, 1000) else rng.choice([10 ** 7, 3 * 10 ** 6])
+    total = per_step / (1 - gam)          # exact value of the loop state
+    direct = int(total) + rng.choice([-100, 100])
+    order = [1, 2]
+    rng.shuffle(order)
+    win = 3
+    xtl = [[(ACTIONS[j], s) for j, s in enumerate(order)], [(gam, 1), (1 - gam, win)], [(Fr(1), win)], [(Fr(1), win)]]
+    return finish([0, per_step, direct, 0], [kind, PR, PR, PR], xtl, [win], {"family": "big_slow_reward"})
+
+
+def close_rewards_game(rng):
+    """acyclic: successors whose exact reward values differ by a few 1e-6 (more than the tolerance, less
+    than ten times it) -- they must NOT be reported as tied"""
+    kind = rng.choice([P1, P2])
+    base = rng.choice([1, 3])
+    d = rng.choice([3e-6, 4e-6, 8e-6])
+    order = [1, 2, 3]
+    rng.shuffle(order)
+    win = 4
+    xtl = [[(ACTIONS[j], s) for j, s in enumerate(order)], [(Fr(1), win)], [(Fr(1), win)], [(Fr(1), win)], [(Fr(1), win)]]
+    return finish([0, base, base + d, base, 0], [kind, PR, PR, PR, PR], xtl, [win], {"family": "close_rewards"})
+
+
+def fan_game(n, rng):
+    """wide and shallow: state 0 (Player 1 or 2) chooses among about sqrt(n) group states (Player 1 or 2 each),
+    every group chooses among about sqrt(n) children; a child is a probabilistic state [(q, mid), (1-q, lose)]
+    or a dead state, q dyadic; `mid` is a rewarded state before `win`.  Every numbering needs at most 4 sweeps.
+    The exact reach values are known in closed form (returned as _fan: expected vector)."""
+    import math
+    kind = rng.choice([P1, P2])
+    G = max(2, math.isqrt(n))
+    m = n - 4 - G
+    mid, lose, win = n - 3, n - 2, n - 1
+    qs = [Fr(1, 2), Fr(1, 4), Fr(3, 4), Fr(1, 8), Fr(0)]
+    gkinds = [rng.choice([P1, P2]) for _ in range(G)]
+    players = [kind] + gkinds + [PR] * (m + 3)
+    rewards = [0] + [rng.randint(0, 2) for _ in range(G)] + [rng.randint(0, 9) for _ in range(m)] + [rng.randint(1, 5), 0, 0]
+    child_q = [rng.choice(qs) for _ in range(m)]
+    members = [[] for _ in range(G)]
+    for j in range(m):
+        members[j % G].append(1 + G + j)
+    xtl = [[(f"g{k}", 1 + k) for k in range(G)]]
+    for k in range(G):
+        xtl.append([(f"c{i}", c) for i, c in enumerate(members[k])])
+    for j in range(m):
+        q = child_q[j]
+        xtl.append([(Fr(1), lose)] if q == 0 else [(q, mid), (1 - q, lose)])
+    xtl += [[(Fr(1), win)], [(Fr(1), lose)], [(Fr(1), win)]]
+    g = finish(rewards, players, xtl, [win], {"family": "fan", "n": n})
+    want = [None] * n
+    for j in range(m):
+        want[1 + G + j] = float(child_q[j])
+    for k in range(G):
+        vs = [want[c] for c in members[k]]
+        want[1 + k] = max(vs) if gkinds[k] == P1 else min(vs)
+    gv = [want[1 + k] for k in range(G)]
+    want[0] = max(gv) if kind == P1 else min(gv)
+    want[mid], want[lose], want[win] = 1, 0, 1
+    g["_fan"] = {"kind": kind, "expected_reach": want}
+    return g
+
+
+def tiny_dead_decimal_game(rng):
+    """a probabilistic row of decimal probabilities whose floating-point sum is exactly 1.0 in one order
+    and 0.9999999999999999 in another, plus a dead branch of probability 1e-20 (or 1e-18): the dead branch
+    has to go whatever the order of the row"""
+    base = rng.choice([[0.1, 0.2, 0.7], [0.7, 0.2, 0.1], [0.3, 0.6, 0.1], [0.1, 0.6, 0.3], [0.2, 0.1, 0.7], [0.7, 0.1, 0.2]])
+    tiny = rng.choice([1e-20, 1e-18, 1e-25])
+    pos = rng.randint(0, 3)
+    front = rng.choice([P1, P2, PR])
+    # 0 front -> 1 ; 1 = row over a,b,c (live) + dead ; a,b,c = coin states with rewards ; dead: Player 2 state with reward
+    a, b, c, dead, lose, win = 2, 3, 4, 5, 6, 7
+    row = [(Fr(base[0]), a), (Fr(base[1]), b), (Fr(base[2]), c)]
+    row.insert(pos, (Fr(tiny), dead))
+    xtl = [[(Fr(1), 1)] if front == PR else [("go", 1)], row,
+           [(Fr(1, 2), win), (Fr(1, 2), lose)], [(Fr(1, 4), win), (Fr(3, 4), lose)], [(Fr(1), win)],
+           [("x", lose)], [(Fr(1), lose)], [(Fr(1), win)]]
+    players = [front, PR, PR, PR, PR, P2, PR, PR]
+    return finish([0, 1, 2, 0, 3, 5, 0, 0], players, xtl, [win], {"family": "tiny_dead_decimal"})
